@@ -77,6 +77,7 @@ def unions_of_whole_same_sample_plates(rec, name, params, pin, pout, w):
 
 
 def check_op(rec, name, params, inp, out, w):
+    params = {k: (int(np.asarray(v).ravel()[0]) if isinstance(v, (np.ndarray, np.integer)) else v) for k, v in params.items()}
     pin, pout = unobs_plates(inp), unobs_plates(out)
     if name == "SampleSegregating":
         bad = {p: v[1] for p, v in pout.items() if len(v[1]) != 1}
